@@ -4,16 +4,16 @@ CONSTANTS
   MinISR = 2
   FetchMax = 2
   HWFallback = FALSE
-  ElectAlive = FALSE
-  ElectDown = TRUE
-  MaxMsgs = 3
-  MaxElect = 2
-  MaxCrash = 2
-  MaxIsrOps = 2
+  ElectAlive = TRUE
+  ElectDown = FALSE
+  MaxMsgs = 4
+  MaxElect = 3
+  MaxCrash = 0
+  MaxIsrOps = 0
   MaxRejects = 0
   Policies = {"ALL"}
   UseCheckpoint = FALSE
   IgnoreTaints = FALSE
-INVARIANTS NoBad_StaleIsrOffset
+INVARIANTS NoBadAck_StaleIsrOffset
 VIEW MCView
 CHECK_DEADLOCK FALSE
